@@ -17,6 +17,19 @@ from .. import facts, ir, report, rwrules, encrules, tablerules, symx
 from . import c16
 
 
+def consumes_input(db, fn, call, depth):
+    """the call reads from the reader (directly, or through a library helper that does on every successful path)"""
+    cal = call.get('callee') or {}
+    if not cal.get('ret', '').startswith('nop::Status'):
+        return False
+    if cal.get('n') in ('Read', 'ReadPayload', 'Skip', 'ReadPadding'):
+        return True
+    g = db.callee(fn, call)
+    if g is None or 'body' not in g or depth > 4:
+        return False
+    return any(consumes_input(db, g, c, depth + 1) for c in ir.calls(g['body']))
+
+
 def termination(chk, db, rule):
     seen = set()
     for f in db.fns:
@@ -29,8 +42,7 @@ def termination(chk, db, rule):
             if key in seen:
                 continue
             seen.add(key)
-            reads = [c for c in ir.calls(lp['body']) if ir.callee_name(c) in ('Read', 'ReadPayload', 'ReadEntryForId', 'Skip') and
-                     (c.get('callee') or {}).get('ret', '').startswith('nop::Status')]
+            reads = [c for c in ir.calls(lp['body']) if consumes_input(db, f, c, 0)]
             const_bound = False
             if lp['k'] == 'for' and lp.get('cond') is not None:
                 c = ir.strip_all_casts(lp['cond'])
